@@ -61,6 +61,23 @@ theorem drive_some (T : Nat) (hs : Nat → HsPoll) (times : List Nat) (hsorted :
       · exact hp
       · exact h3 t' ht' hlt
 
+/-! ### wakers of a pending accept future -/
+
+theorem FutW.poll_deadline (g : FutW) (w t : Nat) (hs : HsPoll) : (g.poll w t hs).1.deadline = g.deadline := by
+  simp only [FutW.poll]; split <;> rfl
+
+theorem FutW.tick_deadline (g : FutW) (old new : Nat) : (g.tick old new).deadline = g.deadline := by
+  simp only [FutW.tick]
+  split
+  · cases g.lastW <;> rfl
+  · rfl
+
+theorem FutW.polls_deadline (polls : List (Nat × Nat)) (g : FutW) :
+    (polls.foldl (fun g p => (g.poll p.1 p.2 .pending).1) g).deadline = g.deadline := by
+  induction polls generalizing g with
+  | nil => rfl
+  | cons p ps ih => simp only [List.foldl]; rw [ih, FutW.poll_deadline]
+
 /-! ### counting alive futures -/
 
 @[simp] theorem upd_same {α : Type} (f : Nat → α) (i : Nat) (v : α) : upd f i v i = v := by simp [upd]
